@@ -291,11 +291,11 @@ theorem mem_insertSorted (x : Val) (ys : List Val) (z : Val) : z ∈ insertSorte
   | cons y ys ih =>
     simp only [insertSorted]
     split
-    · simp
     · simp only [List.mem_cons, ih]
       constructor
       · rintro (h | h | h) <;> simp [h]
       · rintro (h | h | h) <;> simp [h]
+    · simp
 
 theorem length_insertSorted (x : Val) (ys : List Val) : (insertSorted x ys).length = ys.length + 1 := by
   induction ys with
